@@ -78,7 +78,13 @@ def lean_build(targets):
         try:
             tables.regenerate(core.REPO, os.path.join(LEAN, "BigtreeModel", "Generated", "Tables.lean"))
         except Exception as e:  # source no longer parses the way tables.py expects
-            return False, "tables.py: " + repr(e), ["BigtreeModel.Generated.Tables"]
+            # only a property whose model or theorems are built on the generated tables is affected: every other
+            # target is built as usual (the file on disk is the last successfully extracted one)
+            roots = [t for t in targets if not t.startswith("btmodel_")] + ["Main." + t[len("btmodel_"):] for t in targets if t.startswith("btmodel_")]
+            uses = any(os.path.relpath(p, LEAN) == os.path.join("BigtreeModel", "Generated", "Tables.lean") for p in lean_sources(roots))
+            if uses:
+                return False, "tables.py: " + repr(e), ["BigtreeModel.Generated.Tables"]
+            log("[build] note: tables.py could not read the source (" + repr(e) + "); this property does not use the generated tables")
         t = time.time()
         p = subprocess.run(["lake", "build"] + list(targets), cwd=LEAN, capture_output=True, text=True, timeout=3000)
         out = p.stdout + p.stderr
